@@ -26,6 +26,7 @@ Verdict(c) ==
   ELSE IF \E k \in 1..N : c.cli_fasta[2 * k] # Expected(c, c.res[k].p) THEN "cli_fasta_wrong"
   ELSE IF \E k \in 1..N : c.cli_fasta[2 * k - 1] # ">seq_" \o PathStr(c.name, c.res[k].p) THEN "cli_fasta_name"
   ELSE IF \E k \in 1..Len(c.single) : c.single[k].out # Expected(c, c.single[k].p) THEN "cli_single_path"
+  ELSE IF c.big_out # c.big_in THEN "one_record_per_path_fails_for_a_large_paths_file"      \* (0 = 0 when no such file was made)
   ELSE "ok"
 
 Init == i = 1
